@@ -15,13 +15,24 @@ def fnvLoop (prime mask : Nat) (h : Nat) : List Nat → Nat
 def fnvStart (offset mult mask : Nat) (seed : Int) : Nat :=
   (((offset : Int) + (mult : Int) * seed) % ((mask : Int) + 1)).toNat
 
+/-- the same without the mask (what the code would compute if `& MASK` were dropped from the
+    initialisation; only meaningful for seeds that keep the sum non-negative) -/
+def fnvStartRaw (offset mult : Nat) (seed : Int) : Nat := ((offset : Int) + (mult : Int) * seed).toNat
+
+/-- the initial value as the source computes it: whether the seeded offset basis is masked is an
+    extracted fact -/
+def fnvInit (masked : Bool) (offset mult mask : Nat) (seed : Int) : Nat :=
+  if masked then fnvStart offset mult mask seed else fnvStartRaw offset mult seed
+
 /-- `fnv_1a(key, seed)` (hashes.py:89-107) -/
 def fnv1a64 (key : Key) (seed : Int) : Nat :=
-  fnvLoop Gen.fnv64Prime Gen.fnv64Mask (fnvStart Gen.fnv64Offset Gen.fnv64Mult Gen.fnv64Mask seed) key.units
+  fnvLoop Gen.fnv64Prime Gen.fnv64Mask
+    (fnvInit Gen.fnv64StartMasked Gen.fnv64Offset Gen.fnv64Mult Gen.fnv64Mask seed) key.units
 
 /-- `fnv_1a_32(key, seed)` (hashes.py:110-127) -/
 def fnv1a32 (key : Key) (seed : Int) : Nat :=
-  fnvLoop Gen.fnv32Prime Gen.fnv32Mask (fnvStart Gen.fnv32Offset Gen.fnv32Mult Gen.fnv32Mask seed) key.units
+  fnvLoop Gen.fnv32Prime Gen.fnv32Mask
+    (fnvInit Gen.fnv32StartMasked Gen.fnv32Offset Gen.fnv32Mult Gen.fnv32Mask seed) key.units
 
 /-- a hashing strategy: `hash_function(key, depth)` -/
 abbrev Strategy := Key → Nat → List Nat
